@@ -6,6 +6,6 @@ package main
 const prop = "C15"
 
 const (
-	quickCases    = 40
-	thoroughCases = 600
+	quickCases    = 120
+	thoroughCases = 800
 )
